@@ -328,8 +328,9 @@ class PVLParser(object):
             agg = self.aggregation_cls(begin)
         except ValueError as err:
             # The Begin-Aggregation-Statement has been consumed, so this
-            # can no longer be reported as "not an Aggregation-Block".
-            tokens.throw(ValueError, str(err))
+            # can no longer be reported as "not an Aggregation-Block"
+            # (and the tokens may already be exhausted).
+            raise ParseError(str(err))
 
         while True:
             self.parse_WSC_until(None, tokens)
